@@ -45,6 +45,7 @@ import (
 	"fmt"
 	"io"
 	"math/big"
+	mrand "math/rand"
 	"net"
 	"net/http"
 	"os"
@@ -83,6 +84,7 @@ type reqSpec struct {
 	rbc    bool
 	sync   bool
 	d      int
+	up     bool // the request carries "Upgrade: verif-e2e" (answered by the ordinary handler; nothing is upgraded)
 }
 
 type result struct {
@@ -169,6 +171,7 @@ func parseQ(f []string) *reqSpec {
 	r.rbc = kv(f, "rbc") == "1"
 	r.sync = kv(f, "sync") == "1"
 	r.d = kvi(f, "d")
+	r.up = kv(f, "up") == "1"
 	return r
 }
 
@@ -353,8 +356,12 @@ func emitQ(g *lp.Gen, cid int, r *reqSpec) {
 		}
 		return 0
 	}
-	g.P("Q %d %d v=%s c=%s m=%s st=%d sz=%d fr=%s w=%d fl=%d rb=%d rbc=%d sync=%d d=%d", cid, r.rid, r.v, hexs(r.conn), r.method,
-		r.st, r.sz, r.fr, r.w, b(r.fl), r.rb, b(r.rbc), b(r.sync), r.d)
+	up := ""
+	if r.up {
+		up = " up=1"
+	}
+	g.P("Q %d %d v=%s c=%s m=%s st=%d sz=%d fr=%s w=%d fl=%d rb=%d rbc=%d sync=%d d=%d%s", cid, r.rid, r.v, hexs(r.conn), r.method,
+		r.st, r.sz, r.fr, r.w, b(r.fl), r.rb, b(r.rbc), b(r.sync), r.d, up)
 }
 
 func genHist(g *lp.Gen, cid int, thorough bool) {
@@ -561,17 +568,19 @@ func genAbort(g *lp.Gen, cid int) {
 // most releases are valid (invalid ones are refused on both sides)
 func genPool(g *lp.Gen) {
 	max := 1 + g.Intn(3)
-	withTimeout := g.Chance(1, 4)
-	tmo := 20000
+	withTimeout := g.Chance(1, 5)
+	tmo := 60000
 	if withTimeout {
-		tmo = 250
+		tmo = 1500
 	}
 	g.P("C pool max=%d timeout=%d", max, tmo)
 	count, idle, busy, waiting := 0, []int{}, []int{}, 0
 	n := 6 + g.Intn(20)
 	for i := 0; i < n; i++ {
 		switch x := g.Intn(10); {
-		case x < 4 && (!withTimeout || waiting == 0):
+		case x < 4 && waiting == 0:
+			// at most one request waits at a time: which of several blocked receivers the runtime wakes depends on the
+			// order in which their goroutines reached the channel, which a loaded machine does not make observable
 			g.P("G")
 			if len(idle) > 0 {
 				busy = append(busy, idle[0])
@@ -579,6 +588,8 @@ func genPool(g *lp.Gen) {
 			} else if count < max {
 				busy = append(busy, count)
 				count++
+			} else if withTimeout {
+				g.P("T") // the waiter's own timer (1.5 s) fires: nothing else happens in between
 			} else {
 				waiting++
 			}
@@ -594,17 +605,11 @@ func genPool(g *lp.Gen) {
 			}
 		case x < 8 && count > 0:
 			g.P("X %d", g.Intn(count+1)) // now and then an unknown conn
-		case x < 9 && withTimeout && waiting > 0:
-			g.P("T")
-			waiting--
 		case x == 9 && g.Chance(1, 6):
 			g.P("R %d", g.Intn(max+1)) // possibly a conn that is not in use: refused
 		default:
 			g.P("S")
 		}
-	}
-	if withTimeout && waiting > 0 {
-		g.P("T")
 	}
 	g.P("S")
 }
@@ -644,15 +649,72 @@ func genUpload(g *lp.Gen, cid int, rbuf int) {
 	emitQ(g, cid, &reqSpec{rid: rid, v: "11", conn: []string{"close"}, method: "GET", st: 200, sz: 9, fr: "cl", w: 1, sync: g.Chance(1, 2)})
 }
 
+// genUp: requests that carry an Upgrade header (answered by the ordinary handler: 200 or 426, nothing is upgraded)
+// pipelined right behind a request whose handler is still sleeping — the server must run them through the
+// connection's job queue like any other request (C05: handlers of one connection never overlap, FIFO; C10: order).
+func genUp(g *lp.Gen, cid int) {
+	kind := g.Pick("raw", "raw", "nbc")
+	g.P("K %d %s sched=pspsfwfw slow=0 seg=0 to0=0", cid, kind)
+	rid := 0
+	for k := g.Intn(2); k > 0; k-- { // ordinary exchanges in front
+		emitQ(g, cid, &reqSpec{rid: rid, v: "11", method: "GET", st: 200, sz: g.PickInt(0, 30, 700), fr: g.Pick("cl", "au", "ch"), w: 1, sync: rid == 0})
+		rid++
+	}
+	rounds := 1 + g.Intn(2)
+	for i := 0; i < rounds; i++ {
+		// the slow one ...
+		emitQ(g, cid, &reqSpec{rid: rid, v: "11", method: g.Pick("GET", "POST"), st: 200, sz: g.PickInt(10, 300, 3000), fr: g.Pick("cl", "au", "ch"),
+			w: 1 + g.Intn(2), d: 15 + g.Intn(40), sync: rid == 0 || g.Chance(1, 3)})
+		rid++
+		// ... and the upgrade request(s) right behind it
+		for k := 1 + g.Intn(2); k > 0; k-- {
+			emitQ(g, cid, &reqSpec{rid: rid, v: "11", conn: []string{g.Pick("Upgrade", "upgrade")}, method: "GET", st: g.PickInt(200, 426), sz: g.PickInt(0, 20, 500),
+				fr: g.Pick("cl", "au", "ch"), w: 1, up: true})
+			rid++
+		}
+		if g.Chance(1, 2) {
+			emitQ(g, cid, &reqSpec{rid: rid, v: "11", method: "GET", st: 200, sz: g.PickInt(0, 50), fr: "cl", w: 1})
+			rid++
+		}
+	}
+	emitQ(g, cid, &reqSpec{rid: rid, v: "11", conn: []string{"close"}, method: "GET", st: 200, sz: 9, fr: "cl", w: 1, sync: g.Chance(1, 2)})
+}
+
+// genC05: `-tier c05` — only upgrade-behind-slow histories, on the cells whose handlers run on an executor (nb, mx)
+// and, for contrast, in blocking mode; every epoll mode incl. the asyncread variants; plain and TLS
+func genC05(g *lp.Gen) {
+	cid := 0
+	eps := []string{"lt", "et", "os", "eta", "osa"}
+	ios := []string{"nb", "mx", "nb", "mx", "bl"}
+	off := g.Intn(len(eps))
+	for cs := 0; cs < g.N; cs++ {
+		io := ios[(cs+off)%len(ios)]
+		conc := 1 + g.Intn(4)
+		maxblk := 0
+		if io == "mx" {
+			maxblk = 1 + conc/2
+		}
+		g.P("C %s %d %s conc=%d maxblk=%d rbuf=%d", io, (cs/len(eps)+off)%2, eps[(cs+off)%len(eps)], conc, maxblk, g.PickInt(0, 0, 4096))
+		for i := 0; i < conc; i++ {
+			genUp(g, cid)
+			cid++
+		}
+	}
+}
+
 func gen(g *lp.Gen) {
+	if g.Tier == "c05" {
+		genC05(g)
+		return
+	}
 	thorough := g.Tier == "thorough"
 	seed := int(g.Rng.Int63()) // consume one value so streams differ per shard even for n=0
 	_ = seed
-	base := 0
+	base, full := 0, 0
 	for i, a := range os.Args {
 		if (a == "-seed" || a == "--seed") && i+1 < len(os.Args) {
 			v, _ := strconv.Atoi(os.Args[i+1])
-			base = v / 1000 // diff_run derives shard seeds as base*1000+shard
+			base, full = v/1000, v // diff_run derives shard seeds as base*1000+shard
 		}
 	}
 	cells := quickCells(base)
@@ -701,6 +763,9 @@ func gen(g *lp.Gen) {
 			}
 			cid++
 		}
+		// one upgrade-behind-slow history per case, drawn from a generator of its own (the other histories of every
+		// seed stay what they were) and numbered apart
+		genUp(&lp.Gen{Rng: mrand.New(mrand.NewSource(int64(full)*1000003 + int64(cs)*7919 + 17)), N: g.N, Tier: g.Tier, W: g.W}, 100000+cs)
 	}
 }
 
@@ -845,8 +910,14 @@ func (h *hist) checkHandlers() {
 		for i := 1; i < len(l); i++ {
 			if l[i] <= l[i-1] {
 				h.fail(false, "c10-order", "handlers ran out of request order on one connection: %v", l)
+				h.fail(false, "c05-fifo", "handlers ran out of request order on one connection: %v", l)
 				break
 			}
+		}
+		// these kinds use one connection: its handlers are jobs of one per-connection queue (C05) and never overlap
+		if m := inflTake(h.cid); m > 1 {
+			h.fail(false, "c10-order", "%d handlers of one connection were running at the same time (handler entry order %v)", m, l)
+			h.fail(false, "c05-overlap", "%d handlers of one connection were running at the same time (handler entry order %v)", m, l)
 		}
 	}
 }
@@ -1068,6 +1139,9 @@ func (s *server) rawRequest(cid int, r *reqSpec) []byte {
 	for _, v := range r.conn {
 		fmt.Fprintf(&b, "Connection: %s\r\n", v)
 	}
+	if r.up {
+		b.WriteString("Upgrade: verif-e2e\r\n")
+	}
 	body := reqBody(r)
 	if r.method == "POST" {
 		if r.rbc {
@@ -1112,6 +1186,9 @@ func (s *server) httpRequest(cid int, r *reqSpec) *http.Request {
 	}
 	if len(r.conn) > 0 {
 		req.Header["Connection"] = append([]string{}, r.conn...)
+	}
+	if r.up {
+		req.Header.Set("Upgrade", "verif-e2e")
 	}
 	return req
 }
@@ -2042,6 +2119,188 @@ var degraded bool
 // maxAttempts: re-runs of a case whose only failures are of the timing kind
 var maxAttempts = 2
 
+// ---------------------------------------------------------------- environment canary
+//
+// Every liveness observation of this harness is a time-out, and a time-out cannot tell "the code under test lost a
+// wake-up" from "this process did not run" (a frozen or migrated VM, a clock jump that fires all pending timers at
+// once, memory thrashing, a machine loaded far beyond its cores).  The canary measures the second alternative
+// directly: a goroutine that sleeps 10 ms in a loop and records how late it wakes, plus the kernel's memory / io
+// stall counters (PSI).  A failure observed in an attempt during which the canary saw a stall is not a statement
+// about nbio: the case is run again once the canary is calm, and if the environment never calms down the case is
+// printed as skipped (and counted in coverage group "env") rather than reported.  On a calm machine nothing changes:
+// a hang of the code under test leaves the canary punctual, so the failure is reported as before.
+
+const (
+	envTick      = 10 * time.Millisecond
+	envLate      = 1 * time.Second  // a 10 ms sleep that took this much longer: the process did not run
+	envPSIMemory = 1 * time.Second  // tasks stalled on memory for this long during one attempt
+	envPSIIO     = 3 * time.Second  // all tasks stalled on io for this long during one attempt
+	envReruns    = 4                // re-runs of one case on account of the environment
+	envCalmWait  = 60 * time.Second // how long to wait for the canary to become punctual again
+)
+
+type envMonT struct {
+	mu      sync.Mutex
+	started bool
+	worst   time.Duration // worst lateness since the last mark
+}
+
+type envMark struct{ mem, io int64 }
+
+var envMon envMonT
+
+func (m *envMonT) start() {
+	m.mu.Lock()
+	if m.started {
+		m.mu.Unlock()
+		return
+	}
+	m.started = true
+	m.mu.Unlock()
+	note := func(late time.Duration) {
+		m.mu.Lock()
+		if late > m.worst {
+			m.worst = late
+		}
+		m.mu.Unlock()
+	}
+	// canary 1: a sleeping goroutine — late when the process (or the Go scheduler's timers) did not run
+	go func() {
+		for {
+			t0 := time.Now()
+			time.Sleep(envTick)
+			note(time.Since(t0) - envTick)
+		}
+	}()
+	// canary 2: one byte echoed over a loopback connection of package net (no nbio involved) — late when the
+	// kernel's loopback path or the runtime's netpoller did not run
+	ln, err := net.Listen("tcp", "127.0.0.1:0")
+	if err != nil {
+		return
+	}
+	go func() {
+		c, err := ln.Accept()
+		_ = ln.Close()
+		if err != nil {
+			return
+		}
+		b := make([]byte, 1)
+		for {
+			if _, err := io.ReadFull(c, b); err != nil {
+				return
+			}
+			if _, err := c.Write(b); err != nil {
+				return
+			}
+		}
+	}()
+	go func() {
+		c, err := net.Dial("tcp", ln.Addr().String())
+		if err != nil {
+			return
+		}
+		b := make([]byte, 1)
+		for {
+			time.Sleep(5 * envTick)
+			t0 := time.Now()
+			if _, err := c.Write(b); err != nil {
+				return
+			}
+			if _, err := io.ReadFull(c, b); err != nil {
+				return
+			}
+			note(time.Since(t0))
+		}
+	}()
+}
+
+// psiTotal: the "total=" stall time (microseconds) of the given line kind of /proc/pressure/<what>; -1 if unavailable
+func psiTotal(what, kind string) int64 {
+	b, err := os.ReadFile("/proc/pressure/" + what)
+	if err != nil {
+		return -1
+	}
+	for _, l := range strings.Split(string(b), "\n") {
+		if strings.HasPrefix(l, kind+" ") {
+			if i := strings.Index(l, "total="); i >= 0 {
+				if n, err := strconv.ParseInt(strings.TrimSpace(l[i+6:]), 10, 64); err == nil {
+					return n
+				}
+			}
+		}
+	}
+	return -1
+}
+
+func (m *envMonT) mark() envMark {
+	m.start()
+	m.mu.Lock()
+	m.worst = 0
+	m.mu.Unlock()
+	return envMark{mem: psiTotal("memory", "some"), io: psiTotal("io", "full")}
+}
+
+// stalledSince: did the environment keep this process from running at some point since the mark?
+func (m *envMonT) stalledSince(mk envMark) (bool, string) {
+	m.mu.Lock()
+	worst := m.worst
+	m.mu.Unlock()
+	if worst >= envLate {
+		return true, fmt.Sprintf("timer-late-%dms", worst.Milliseconds())
+	}
+	if now := psiTotal("memory", "some"); mk.mem >= 0 && now >= 0 && time.Duration(now-mk.mem)*time.Microsecond >= envPSIMemory {
+		return true, fmt.Sprintf("memory-stall-%dms", (now-mk.mem)/1000)
+	}
+	if now := psiTotal("io", "full"); mk.io >= 0 && now >= 0 && time.Duration(now-mk.io)*time.Microsecond >= envPSIIO {
+		return true, fmt.Sprintf("io-stall-%dms", (now-mk.io)/1000)
+	}
+	return false, ""
+}
+
+// describe: what the canary saw since the mark (appended to reported failures for triage)
+func (m *envMonT) describe(mk envMark) string {
+	d := func(a, b int64) int64 {
+		if a < 0 || b < 0 {
+			return -1
+		}
+		return (b - a) / 1000
+	}
+	return fmt.Sprintf("[env: canary-late<=%dms memory-stall=%dms io-stall=%dms]", m.worstNow().Milliseconds(),
+		d(mk.mem, psiTotal("memory", "some")), d(mk.io, psiTotal("io", "full")))
+}
+
+// waitCalm: wait (bounded) until the canary has been punctual for two seconds in a row
+func (m *envMonT) waitCalm() {
+	calm := 0
+	for t0 := time.Now(); time.Since(t0) < envCalmWait && calm < 2; {
+		mk := m.mark()
+		time.Sleep(time.Second)
+		if st, _ := m.stalledSince(mk); st {
+			calm = 0
+		} else if m.worstNow() < envLate/4 {
+			calm++
+		} else {
+			calm = 0
+		}
+	}
+}
+
+func (m *envMonT) worstNow() time.Duration {
+	m.mu.Lock()
+	defer m.mu.Unlock()
+	return m.worst
+}
+
+// skipCase: the case could not be evaluated in this environment; one result line per op keeps the protocol aligned
+// (the model answers bad-op to the unknown op as well)
+func skipCase(e *lp.Exec, lines []string, why string) {
+	for _, l := range lines {
+		e.P("> skipped %s %s", why, l)
+		e.P("bad-op")
+	}
+	e.Count("env", "case-skipped")
+}
+
 type caseT struct {
 	lines []string // original op lines of the case, in order
 	cell  cellT
@@ -2232,7 +2491,51 @@ type poolGet struct {
 	err   error
 }
 
+// runPoolCase: the pool case observes blocking and time-outs of getConn — timing by nature.  Its output is buffered;
+// an attempt with an oracle report during which the environment canary saw a stall is discarded and run again.
 func runPoolCase(e *lp.Exec, lines []string) {
+	real := e.W
+	defer func() { e.W = real }()
+	for envRuns := 0; ; envRuns++ {
+		var buf bytes.Buffer
+		e.W = bufio.NewWriter(&buf)
+		mk := envMon.mark()
+		key, nontrivial := runPoolOnce(e, lines)
+		e.W.Flush()
+		e.W = real
+		failed := bytes.Contains(buf.Bytes(), []byte("\n! oracle=")) || bytes.Contains(buf.Bytes(), []byte(" handoff=error:"))
+		if failed {
+			if stalled, why := envMon.stalledSince(mk); stalled {
+				e.Count("env", "attempt-discarded")
+				if envRuns >= envReruns {
+					skipCase(e, lines, why)
+					return
+				}
+				envMon.waitCalm()
+				continue
+			}
+		}
+		out := buf.Bytes()
+		if failed {
+			note := " " + envMon.describe(mk)
+			var b bytes.Buffer
+			for _, l := range strings.SplitAfter(buf.String(), "\n") {
+				if strings.HasPrefix(l, "! ") {
+					l = strings.TrimSuffix(l, "\n") + note + "\n"
+				}
+				b.WriteString(l)
+			}
+			out = b.Bytes()
+		}
+		real.Write(out)
+		real.Flush()
+		e.Count("cells", "pool")
+		e.Key(key, nontrivial)
+		return
+	}
+}
+
+func runPoolOnce(e *lp.Exec, lines []string) (string, bool) {
 	f0 := strings.Fields(lines[0])
 	max, tmo := kvi(f0, "max"), kvi(f0, "timeout")
 	if max <= 0 || tmo <= 0 {
@@ -2240,7 +2543,7 @@ func runPoolCase(e *lp.Exec, lines []string) {
 			e.P("> %s", l)
 			e.P("bad-op")
 		}
-		return
+		return "pool/bad", false
 	}
 	pool := nbhttp.VerifNewPool(int32(max), time.Duration(tmo)*time.Millisecond)
 	ids := map[*nbhttp.ClientConn]int{}
@@ -2276,22 +2579,45 @@ func runPoolCase(e *lp.Exec, lines []string) {
 			g := &poolGet{r: nreq, done: make(chan struct{})}
 			nreq++
 			go func() { g.hc, g.reset, g.err = pool.Get(); close(g.done) }()
-			select {
-			case <-g.done:
-				if g.err != nil {
-					e.P("error %v", g.err)
-					continue
+			// "blocked" is reported only when the bookkeeping itself says nothing can be handed out (no free conn and
+			// connNum at the limit); a getConn that is merely slow on a loaded machine is waited for
+			isBlocked := false
+			for t0 := time.Now(); ; {
+				select {
+				case <-g.done:
+				case <-time.After(settle):
+					cn, free, _ := pool.State()
+					if free == 0 && cn >= max {
+						// the goroutine may not have reached the channel yet; give it the time to park there
+						time.Sleep(settle)
+						select {
+						case <-g.done:
+						default:
+							isBlocked = true
+						}
+					} else if time.Since(t0) < 5*time.Second {
+						continue
+					} else {
+						isBlocked = true
+					}
 				}
-				id, isNew := idOf(g.hc)
-				if busy[id] {
-					e.Oracle("c10-client-pool", "ClientConn %d handed to request %d while it is still in use", id, g.r)
-				}
-				busy[id] = true
-				e.P("got c=%d new=%d reset=%d", id, isNew, b2i(g.reset))
-			case <-time.After(settle):
+				break
+			}
+			if isBlocked {
 				waiting = append(waiting, g)
 				e.P("blocked r=%d", g.r)
+				continue
 			}
+			if g.err != nil {
+				e.P("error %v", g.err)
+				continue
+			}
+			id, isNew := idOf(g.hc)
+			if busy[id] {
+				e.Oracle("c10-client-pool", "ClientConn %d handed to request %d while it is still in use", id, g.r)
+			}
+			busy[id] = true
+			e.P("got c=%d new=%d reset=%d", id, isNew, b2i(g.reset))
 		case "R":
 			id, _ := strconv.Atoi(f[1])
 			if id < 0 || id >= len(byID) || !busy[id] {
@@ -2304,24 +2630,40 @@ func runPoolCase(e *lp.Exec, lines []string) {
 				e.P("ok handoff=-")
 				continue
 			}
-			w := waiting[0]
-			select {
-			case <-w.done:
-				waiting = waiting[1:]
-				if w.err != nil {
-					e.P("ok handoff=error:%v", w.err)
-					continue
+			// whichever blocked request the runtime wakes (with one waiter — all the generator produces — it is the oldest)
+			var w *poolGet
+			wi := -1
+			for t0 := time.Now(); w == nil && time.Since(t0) < 30*time.Second; {
+				for k, x := range waiting {
+					select {
+					case <-x.done:
+						w, wi = x, k
+					default:
+					}
+					if w != nil {
+						break
+					}
 				}
-				wid, _ := idOf(w.hc)
-				if busy[wid] {
-					e.Oracle("c10-client-pool", "ClientConn %d handed to request %d while it is still in use", wid, w.r)
+				if w == nil {
+					time.Sleep(200 * time.Microsecond)
 				}
-				busy[wid] = true
-				e.P("ok handoff=%d:%d:%d", w.r, wid, b2i(w.reset))
-			case <-time.After(2 * time.Second):
-				e.Oracle("c10-client-pool", "request %d still blocked 2 s after ClientConn %d was released", w.r, id)
-				e.P("ok handoff=stuck")
 			}
+			if w == nil {
+				e.Oracle("c10-client-pool", "%d requests still blocked 30 s after ClientConn %d was released", len(waiting), id)
+				e.P("ok handoff=stuck")
+				continue
+			}
+			waiting = append(waiting[:wi], waiting[wi+1:]...)
+			if w.err != nil {
+				e.P("ok handoff=error:%v", w.err)
+				continue
+			}
+			wid, _ := idOf(w.hc)
+			if busy[wid] {
+				e.Oracle("c10-client-pool", "ClientConn %d handed to request %d while it is still in use", wid, w.r)
+			}
+			busy[wid] = true
+			e.P("ok handoff=%d:%d:%d", w.r, wid, b2i(w.reset))
 		case "X":
 			id, _ := strconv.Atoi(f[1])
 			if id < 0 || id >= len(byID) {
@@ -2344,9 +2686,22 @@ func runPoolCase(e *lp.Exec, lines []string) {
 				} else {
 					e.P("unexpected-conn r=%d", w.r)
 				}
-			case <-time.After(time.Duration(tmo)*time.Millisecond + 2*time.Second):
-				e.Oracle("c10-client-pool", "blocked request %d did not time out", w.r)
-				e.P("stuck r=%d", w.r)
+			case <-time.After(time.Duration(tmo)*time.Millisecond + 20*time.Second):
+				// one-sided: the margin costs time only when the request really stays blocked; and a last look at the
+				// channel — a clock jump fires both timers at once
+				time.Sleep(200 * time.Millisecond)
+				select {
+				case <-w.done:
+					waiting = waiting[1:]
+					if w.err != nil {
+						e.P("timeout r=%d", w.r)
+					} else {
+						e.P("unexpected-conn r=%d", w.r)
+					}
+				default:
+					e.Oracle("c10-client-pool", "blocked request %d did not time out", w.r)
+					e.P("stuck r=%d", w.r)
+				}
 			}
 		case "S":
 			cn, free, conns := pool.State()
@@ -2367,8 +2722,7 @@ func runPoolCase(e *lp.Exec, lines []string) {
 			e.P("bad-op")
 		}
 	}
-	e.Count("cells", "pool")
-	e.Key(key.String(), len(lines) > 6)
+	return key.String(), len(lines) > 6
 }
 
 func joinInts(xs []int) string {
@@ -2392,10 +2746,13 @@ func runCase(e *lp.Exec, lines []string) {
 		}
 		return
 	}
+	envRuns := 0
+	envNote := ""
 	for attempt := 0; ; attempt++ {
 		if degraded {
 			attempt = maxAttempts // a failing input is already on record: no re-runs, short time-outs (see below)
 		}
+		mk := envMon.mark()
 		if err := c.runOnce(); err != nil {
 			for _, l := range lines {
 				e.P("> %s", l)
@@ -2411,6 +2768,22 @@ func runCase(e *lp.Exec, lines []string) {
 			}
 			if len(h.fails) > 0 && !h.soft {
 				hard = true
+			}
+		}
+		// a failure of an attempt during which this process was kept from running (see the environment canary) says
+		// nothing about the code under test: run the case again when the machine is calm, skip it if it never is
+		if soft || hard {
+			envNote = " " + envMon.describe(mk)
+			if stalled, why := envMon.stalledSince(mk); stalled {
+				e.Count("env", "attempt-discarded")
+				if envRuns >= envReruns {
+					skipCase(e, lines, why)
+					return
+				}
+				envRuns++
+				attempt--
+				envMon.waitCalm()
+				continue
 			}
 		}
 		// timing-type failures (timeouts on a loaded machine) are re-run before they are reported;
@@ -2500,7 +2873,7 @@ func runCase(e *lp.Exec, lines []string) {
 	}
 	for _, h := range c.order {
 		for _, f := range h.fails {
-			e.P("! %s", f)
+			e.P("! %s%s", f, envNote)
 			if !degraded && !strings.Contains(f, " class=") { // classified reports are the recorded known findings
 				// On a tree that fails, the remaining cases of this process are still run and reported, but a stall
 				// no longer costs 3 x 25 s per case: the verdict is in, the rest is detail.
